@@ -24,6 +24,9 @@ structure Cfg where
   /-- a submission for a nonce that is already pending is refused (repaired); as found it is accepted
       and silently dropped at the next promotion -/
   pendingNonceCheck : Bool := true
+  /-- `demoteUnexecutables` postpones what lies behind ANY nonce gap of the pending queue (repaired);
+      as found only a gap in front of the queue was looked for -/
+  demotesGaps : Bool := true
   deriving Repr, DecidableEq
 
 structure Tx where
@@ -142,16 +145,28 @@ def submit (cfg : Cfg) (p : Pool) (t : Tx) : Pool × SubmitRes :=
       (if nonceOf p t.sender = t.nonce then promote cfg p2 [t.sender] else p2, .ok)
     | (p1, r) => (p1, r)
 
+/-- the run of consecutive nonces from `n` at the head of a queue, and what is left behind it -/
+def consecPrefix : Queue → Nat → Queue × Queue
+  | [], _ => ([], [])
+  | t :: r, n => if t.nonce = n then ((t :: (consecPrefix r (n + 1)).1), (consecPrefix r (n + 1)).2)
+                 else ([], t :: r)
+
+/-- what stays executable and what is postponed -/
+def gapSplit (cfg : Cfg) (q : Queue) (nonce : Nat) : Queue × Queue :=
+  if cfg.demotesGaps then consecPrefix q nonce
+  else if q.isEmpty ∨ qHas q nonce then (q, []) else ([], q)
+
 /-- one account's turn in `demoteUnexecutables` -/
 def demoteOne (cfg : Cfg) (p : Pool) (a : Nat) : Pool :=
   let nonce := nonceOf p a
   let (q1, old) := qForward (mGet p.pending a) nonce
   let p1 := { p with pending := mSet p.pending a q1, all := forget p.all old }
-  if q1.isEmpty ∨ qHas q1 nonce then p1
+  let (keep, rest) := gapSplit cfg q1 nonce
+  if rest.isEmpty then p1
   else
-    -- a gap in front: everything goes back to the waiting queue (or is dropped if that is full)
-    let p2 := { p1 with pending := mSet p1.pending a [] }
-    q1.foldl (fun acc t =>
+    -- a gap: what lies behind it goes back to the waiting queue (or is dropped if that is full)
+    let p2 := { p1 with pending := mSet p1.pending a keep }
+    rest.foldl (fun acc t =>
       match addWaiting cfg acc t with
       | (acc', .ok) => acc'
       | (acc', _) => { acc' with all := forget acc'.all [t] }) p2
